@@ -218,7 +218,7 @@ package buffer
 //@   ensures accepted: callres(b.buffer.Write, 0, 1) == nil ==> b.writeError == old(b.writeError) && result0 == callres(b.buffer.Write, 0, 0) && b.written
 //@   ensures written_means_the_buffer_has_data: (old(b.written) ==> old(b.buffer.wrote)) ==> (b.written ==> b.buffer.wrote)
 //@ func (*bufferWriter).Hijack
-//@   props C20
+//@   props C07 C15 C20
 //@   requires b != nil
 //@   modifies external, b.hijacked
 //@   ensures hijack_forwarded_when_supported: implements(b.responseWriter, "net/http.Hijacker") ==> calls(Hijack) == 1 && result0 == callres(Hijack, 0, 0) && result1 == callres(Hijack, 0, 1) && result2 == callres(Hijack, 0, 2)
@@ -244,6 +244,7 @@ package buffer
 
 // ---- the request handed to the wrapped handler (C06) -----------------------------------------------------------------------------
 //@ type Buffer
+//@   shared
 //@   immutable maxRequestBodyBytes memRequestBodyBytes maxResponseBodyBytes memResponseBodyBytes retryPredicate errHandler verbose log
 //@   setup Wrap
 
